@@ -189,7 +189,8 @@ func recvError(evs []abci.Event) string {
 			continue
 		}
 		for _, a := range e.Attributes {
-			if a.Key == transfertypes.AttributeKeyAckError {
+			// attribute keys of a discarded (error acknowledgement) callback are prefixed as well
+			if strings.HasSuffix(a.Key, transfertypes.AttributeKeyAckError) {
 				return a.Value
 			}
 		}
@@ -291,11 +292,17 @@ func (f *fixture) ack(w *ksim.World, rt route, src int, s sent, app []byte, v2ac
 
 func (f *fixture) roundTrip(rt route, base string) outcome {
 	o := outcome{Route: rt.Name, Base: base}
+	w := f.base.Fork()
 	if err := sdk.ValidateDenom(base); err != nil {
-		o.Trivial = "not-an-sdk-denom"
+		// no account can hold such a coin: outside the quantifier. For the record, what the origin's
+		// handler answers when asked to send it anyway (an error is expected, not a panic).
+		_, r := f.send(w, rt, 0, base, base, f.userA, f.userB)
+		o.Trivial = "not-an-sdk-denom(send:" + string(r.Class) + ")"
+		if r.Class == ksim.PANIC {
+			o.Err = r.Code
+		}
 		return o
 	}
-	w := f.base.Fork()
 	appA, appB := f.wk.Chains[0].App, f.wk.Chains[1].App
 	coins := sdk.Coins{sdk.Coin{Denom: base, Amount: sdkmath.NewInt(amount)}}
 	if r := w.Do(0, func(ctx sdk.Context) error {
@@ -523,6 +530,9 @@ loop:
 			}
 			if o.Trivial != "" {
 				c.Hist("outside_quantifier", rt.Name+":"+o.Trivial)
+				if o.Err != "" {
+					c.Hist("origin_handler_panics_on_non_sdk_denoms(info)", rt.Name+": "+o.Err)
+				}
 				continue
 			}
 			nontrivial++
